@@ -87,11 +87,10 @@ def threading_rules(rep, r2, m):
     th = induct.Threading(m, ex, ex_x, mp, n_ge_1=n_ge_1)
     top = kids(ex.body)
     ai = inv.stmt_index_containing(ex, allocs[0])
-    loops = [i_ for i_, s_ in enumerate(top) if i_ >= ai and s_["kind"] in ("ForStmt", "WhileStmt")]
-    if len(loops) != 1 or any(x["kind"] in ("ForStmt", "WhileStmt", "DoStmt") and x is not top[loops[0]] and
-                              not (x["kind"] == "DoStmt" and "sizeof" in render(x) or is_assert_like(x))
-                              for s_ in top[ai:] for x in walk(s_) if x is not top[loops[0]] and
-                              x["kind"] in ("ForStmt", "WhileStmt")):
+    def real_loop(x_):
+        return x_["kind"] in ("ForStmt", "WhileStmt") or (x_["kind"] == "DoStmt" and not is_assert_like(x_))
+    loops = [i_ for i_, s_ in enumerate(top) if i_ >= ai and real_loop(s_)]
+    if len(loops) != 1 or any(real_loop(x) and x is not top[loops[0]] for s_ in top[ai:] for x in walk(s_)):
         raise AnalysisBroken("expand: expected one threading loop after the allocation")
     th.run(top[ai:loops[0] + 1])
     th.run_after_loop(top[loops[0] + 1:])
@@ -150,7 +149,9 @@ def threading_rules(rep, r2, m):
 
 
 def is_assert_like(x):
-    return x["kind"] == "DoStmt"
+    """do { ... } while (0): the shape of the compiled-out assertion macros"""
+    from ..astutil import int_value as _iv
+    return x["kind"] == "DoStmt" and len(kids(x)) > 1 and _iv(strip(kids(x)[1], casts=True)) == 0
 
 
 def chunk_list_bounds(rep, r5, m):
